@@ -1135,6 +1135,13 @@ func (w *worker) runCombine(ctx context.Context, task *Task, taskStats *stats.Ma
 		w.mu.Lock()
 		w.combinerStates[combineKey]--
 		w.mu.Unlock()
+		if e := recover(); e != nil {
+			// (User) combine code panicked: do not commit.
+			stack := debug.Stack()
+			err = fmt.Errorf("panic while evaluating slice: %v\n%s", e, string(stack))
+			err = maybeTaskFatalErr{errors.E(err, errors.Fatal)}
+			return
+		}
 		if err == nil && task.CombineKey == "" {
 			taskWriteDuration := taskStats.Int("writeDuration")
 			start := time.Now()
@@ -1167,6 +1174,13 @@ func (w *worker) runCombine(ctx context.Context, task *Task, taskStats *stats.Ma
 	for i := range partitionCombiner {
 		partitionCombiner[i] = makeCombiningFrame(task, task.Combiner, 8, 1)
 	}
+	// combine combines f into the shared combiner of partition p. The
+	// combiner is handed back even if (user) combine code panics, so that
+	// neither the other tasks sharing it nor CommitCombiner block forever.
+	combine := func(combiner *combiner, p int, f frame.Frame) error {
+		defer func() { combiners[p] <- combiner }()
+		return combiner.Combine(ctx, f)
+	}
 	for {
 		n, err := in.Read(ctx, out)
 		if err != nil && err != sliceio.EOF {
@@ -1194,9 +1208,7 @@ func (w *worker) runCombine(ctx context.Context, task *Task, taskStats *stats.Ma
 			}
 
 			flushed := pcomb.Compact()
-			combErr := combiner.Combine(ctx, flushed)
-			combiners[p] <- combiner
-			if combErr != nil {
+			if combErr := combine(combiner, p, flushed); combErr != nil {
 				return combErr
 			}
 		}
@@ -1208,10 +1220,7 @@ func (w *worker) runCombine(ctx context.Context, task *Task, taskStats *stats.Ma
 	}
 	// Flush the remainder.
 	for p, comb := range partitionCombiner {
-		combiner := <-combiners[p]
-		err := combiner.Combine(ctx, comb.Compact())
-		combiners[p] <- combiner
-		if err != nil {
+		if err := combine(<-combiners[p], p, comb.Compact()); err != nil {
 			return err
 		}
 	}
